@@ -104,6 +104,8 @@ package generator
 //@   worker ensures $fcalls <= 2
 //@   worker ensures ncalls("f") <= 1 && ncalls("p.pp.PostProcess") <= 1
 //@   worker ensures !$panic && sent(errs) == 0 ==> ncalls("f") == 1
+//@   worker ensures ncalls("p.pp.PostProcess") == 1 && callret("p.pp.PostProcess", 1) != nil ==> ncalls("f") == 0 && (!$panic ==> sent(errs) == 1)
+//@   worker ensures !$panic && ncalls("f") == 1 && callret("f", 0) != nil ==> sent(errs) == 1
 //@   worker ensures ncalls("f") == 1 ==> callarg("f", 0) == old(j.Path)
 //@   worker ensures ncalls("f") == 1 && old(p.pp) == nil ==> callarg("f", 1) == old(unsafex.StringToBinary(j.Content))
 //@   worker ensures ncalls("f") == 1 && old(p.pp) != nil ==> ncalls("p.pp.PostProcess") == 1 && callarg("p.pp.PostProcess", 0) == old(j.Path) && callarg("p.pp.PostProcess", 1) == old(unsafex.StringToBinary(j.Content)) && callarg("f", 1) == callret("p.pp.PostProcess", 0)
